@@ -74,9 +74,10 @@ def pending(ch, std_mode: bool = False) -> int:
     s = _last_pulse(ch)
     if s is None:
         return 0
-    if not std_mode and s.in_eom != s.cur_eom and ch.end >= s.tf + s.fall_own:
-        # played in the other mode (before the EOM block was opened / after it was closed) and, by the bandwidth it was
-        # played with, already at rest: nothing is pending whatever the current mode's (possibly longer) fall time says
+    if not std_mode and not s.in_eom and s.cur_eom and ch.end >= s.tf + s.fall_own:
+        # played in standard mode before the EOM block was opened and, by the bandwidth it was played with, already at rest:
+        # nothing is pending whatever the EOM's (possibly longer) fall time says.  A slot of a closed block seen from standard
+        # mode is judged by the channel's own fall time (what disable_eom_mode's default buffer waits for).
         return 0
     fall = s.fall_std if std_mode else s.fall_cur
     return max(0, s.tf + fall - ch.end)
